@@ -8,11 +8,14 @@ CONSTANTS Names,      \* directory names of repositories, {"a","b"} (= base name
           MaxHead,    \* commits per repository
           MaxDepth,   \* bound on the number of state changing steps of a history
           Foreign,    \* TRUE: shards written by another tool may appear in the index
-          Emit        \* "none" | "C33" | "C34": print replay scripts
+          Emit,       \* "none" | "C33" | "C34": print replay scripts
+          EmitMod     \* 1: a script for every explored (state, command); k: a deterministic 1/k of them
 
 VARIABLES repos, index, hist
 vars == <<repos, index, hist>>
-view == <<repos, index>>
+\* the history is not part of the state; its length is, so that "every state reachable by a
+\* history of at most MaxDepth steps" does not depend on the order in which TLC's workers meet them
+view == <<repos, index, Len(hist)>>
 
 Positions == [r : {1, 2}, k : {"top", "bare", "nest"}, n : Names]
              \cup {[r |-> r, k |-> "self", n |-> RootBase(r)] : r \in {1, 2}}
@@ -56,6 +59,19 @@ Cmds(f) == {Sync(rs, f) : rs \in RootArgs} \cup {Remove(ss, f) : ss \in SelArgs}
 EnvStep(a)       == [t |-> "env", a |-> a]
 CmdStep(c, i, r) == [t |-> "cmd", c |-> c, pre |-> i, pred |-> r]
 
+\* deterministic thinning of the printed scripts (a checksum of history and command)
+ActCode(a)  == CASE a = "add" -> 1 [] a = "del" -> 2 [] a = "rename" -> 3 [] a = "move" -> 4 [] a = "commit" -> 5
+                 [] a = "clone" -> 6 [] OTHER -> 7
+KindCode(k) == CASE k = "top" -> 1 [] k = "bare" -> 2 [] k = "nest" -> 3 [] k = "self" -> 4 [] OTHER -> 0
+CmdCode(c)  == (IF c.op = "sync" THEN 11 ELSE 13) + 5 * Len(c.roots) + 3 * (IF c.roots # <<>> THEN c.roots[1] ELSE 0)
+               + 7 * Len(c.sels) + (IF c.sels # <<>> /\ c.sels[1].by = "src" THEN 2 ELSE 0)
+StepCode(s) == IF s.t = "cmd" THEN CmdCode(s.c)
+               ELSE 31 * ActCode(s.a.act) + 17 * s.a.r + 7 * KindCode(s.a.k) + 3 * (IF s.a.n = "a" THEN 1 ELSE 2)
+                    + s.a.r2 + 5 * KindCode(s.a.k2)
+RECURSIVE HistCode(_, _)
+HistCode(h, i) == IF i > Len(h) THEN 0 ELSE i * StepCode(h[i]) + HistCode(h, i + 1)
+Emits(mode, c) == Emit = mode /\ (EmitMod = 1 \/ (HistCode(hist, 1) + CmdCode(c)) % EmitMod = 0)
+
 Init == repos = {} /\ index = {} /\ hist = <<>>
 
 Env(a) == /\ Len(hist) < MaxDepth
@@ -71,7 +87,7 @@ Apply(c) ==
   /\ IF r.index # index /\ Len(hist) < MaxDepth
      THEN index' = r.index /\ hist' = Append(hist, CmdStep(c, index, r))
      ELSE UNCHANGED <<index, hist>>       \* no change, or a final command at the depth bound
-  /\ (Emit = "C34" =>
+  /\ (Emits("C34", c) =>
         PrintT(<<"SCRIPT", ToJson([steps |-> Append(hist, CmdStep(c, index, r)) \o
             (IF c.op = "sync" THEN <<CmdStep(c, r.index, Run(repos, r.index, c))>> ELSE <<>>)])>>))
 
@@ -80,7 +96,7 @@ Preview(c) ==
   LET r  == Run(repos, index, c)
       cf == [c EXCEPT !.force = TRUE]
   IN /\ UNCHANGED vars
-     /\ (Emit = "C33" =>
+     /\ (Emits("C33", c) =>
            PrintT(<<"SCRIPT", ToJson([steps |-> hist \o <<CmdStep(c, index, r), CmdStep(cf, index, Run(repos, index, cf))>>])>>))
 
 Next == \/ \E a \in EnvActs : Env(a)
